@@ -36,6 +36,7 @@ CLAUSES = {
     "StepNotPastTf": ("C04",),
     "RejectedStepRestoresState": ("C04", "C17"),      # C17: no partially updated state is presented as a solution
     "AcceptedStepWithinTol": ("C04",),
+    "StepUsesCurrentTimeConstants": ("C04",),
     "ResumedEqualsUninterrupted": ("C14",),
     "ResumedFiresSameEvents": ("C14",),
     "ResumedSameFinalStatus": ("C14",),
@@ -186,6 +187,19 @@ def float_schedules(n, rnd, case="kundur/kundur_full.json", tf_max=3.0):
             "/".join("%.6g" % s for s in segs))
         out.append(dict(sid=sid, case=case, events=evs, segs=segs, family="float",
                         tds=dict(tstep=tstep, fixt=fixt, no_tqdm=1)))
+    return out
+
+
+def time_constant_scenarios(case="kundur/kundur_full.json"):
+    """A time constant (inertia of a machine) altered by a timed event, and between two segments, followed by a disturbance:
+    the steps after the change must be taken with the new value."""
+    tg = TARGETS[case]
+    out = []
+    for k, (t_alter, t_tog, segs) in enumerate([(0.2, 0.4, [0.8]), (0.25, 0.3, [0.3, 0.7])]):
+        evs = [dict(add="Alter", model="GENROU", dev=1, src="M", attr="v", method="*", amount=2.0, t=t_alter),
+               dict(add="Toggle", model=tg["model"], dev=tg["devs"][0], t=t_tog)]
+        out.append(dict(sid="tconst[alter M x2 at %.6g|toggle %.6g|seg=%s]" % (t_alter, t_tog, "/".join("%.6g" % x for x in segs)),
+                        case=case, events=evs, segs=segs, family="float", tds=dict(tstep=1 / 30, fixt=1, no_tqdm=1)))
     return out
 
 
